@@ -16,7 +16,7 @@ structure CodecLaws (c : Codec) : Prop where
   decD_encD : ∀ v r, c.wt v = true → c.decD (c.partialOf v) (c.encD v ++ r) = .ok (v, r)
   decS_sound : ∀ bs p r, c.decS bs = .ok (p, r) → ∃ u, bs = u ++ r ∧ u.length = c.sizeS p ∧ c.pwt p = true
   decD_sound : ∀ p bs v r, c.pwt p = true → c.decD p bs = .ok (v, r) →
-    ∃ u, bs = u ++ r ∧ u.length = c.sizeD v ∧ c.sizeS v = c.sizeS p ∧ c.wt v = true
+    ∃ u, bs = u ++ r ∧ u.length = c.sizeD v ∧ c.sizeS v = c.sizeS p ∧ c.wt v = true ∧ c.partialOf v = p
 
 def EnvLaws (env : Env) : Prop := ∀ k, CodecLaws (env k)
 
@@ -396,8 +396,31 @@ theorem decElems_enc (f : Bytes → R (Val × Bytes)) (g : Val → Bytes) (h : V
     rw [ih (fun e he => hf e (by simp [he]))]
     simp
 
+/-- distinct discriminants are only needed below vectors (where whole elements are decoded) -/
+def Desc.vecNodup : Desc → Bool
+  | .vec d => d.nodup
+  | .pair a b => a.vecNodup && b.vecNodup
+  | .pre _ d => d.vecNodup
+  | .enum a => a.vecNodup
+  | .alt _ d rest => d.vecNodup && rest.vecNodup
+  | _ => true
+
+theorem nodup_vecNodup : ∀ d : Desc, d.nodup = true → d.vecNodup = true := by
+  intro d
+  induction d with
+  | vec d _ => intro h; simpa [Desc.nodup, Desc.vecNodup] using h
+  | pair a b iha ihb =>
+    intro h; simp only [Desc.nodup, Bool.and_eq_true] at h
+    simp [Desc.vecNodup, iha h.1, ihb h.2]
+  | pre p d ih => intro h; simp only [Desc.nodup] at h; simp [Desc.vecNodup, ih h]
+  | enum a ih => intro h; simp only [Desc.nodup] at h; simp [Desc.vecNodup, ih h]
+  | alt k d rest ihd ihr =>
+    intro h; simp only [Desc.nodup, Bool.and_eq_true] at h
+    simp [Desc.vecNodup, ihd h.1.2, ihr h.2]
+  | _ => intro _; rfl
+
 theorem decD_encD_aux (env : Env) (L : EnvLaws env) : ∀ d : Desc,
-    (d.wf = true ∨ d.wfAlts = true) → d.nodup = true → ∀ v r, wt env d v = true →
+    (d.wf = true ∨ d.wfAlts = true) → d.vecNodup = true → ∀ v r, wt env d v = true →
       decD env d (partialOf env d v) (encD env d v ++ r) = .ok (erase env d v, r) := by
   intro d
   induction d with
@@ -417,7 +440,7 @@ theorem decD_encD_aux (env : Env) (L : EnvLaws env) : ∀ d : Desc,
     intro hw hn v r hv
     have hw : d.wf = true := by
       rcases hw with hw | hw <;> simp [Desc.wf, Desc.wfAlts] at hw; exact hw
-    simp only [Desc.nodup] at hn
+    simp only [Desc.vecNodup] at hn
     simp only [wt, Bool.and_eq_true, List.all_eq_true, decide_eq_true_eq] at hv
     obtain ⟨⟨_, hall⟩, _⟩ := hv
     simp only [decD, encD, partialOf, erase]
@@ -425,13 +448,13 @@ theorem decD_encD_aux (env : Env) (L : EnvLaws env) : ∀ d : Desc,
     intro e he r'
     simp only [List.append_assoc]
     rw [decS_encS env L d hw hn e _ (hall e he)]
-    exact ih (Or.inl hw) hn e r' (hall e he)
+    exact ih (Or.inl hw) (nodup_vecNodup d hn) e r' (hall e he)
   | unit => intro _ _ v r hv; cases v <;> simp [wt] at hv; simp [decD, encD, partialOf, erase]
   | pair a b iha ihb =>
     intro hw hn v r hv
     have hw : a.wf = true ∧ b.wf = true := by
       rcases hw with hw | hw <;> simp [Desc.wf, Desc.wfAlts] at hw; exact hw
-    simp only [Desc.nodup, Bool.and_eq_true] at hn
+    simp only [Desc.vecNodup, Bool.and_eq_true] at hn
     cases v <;> simp [wt] at hv
     rename_i va vb
     simp only [decD, encD, partialOf, erase, List.append_assoc]
@@ -442,7 +465,7 @@ theorem decD_encD_aux (env : Env) (L : EnvLaws env) : ∀ d : Desc,
     intro hw hn v r hv
     have hw : d.wf = true := by
       rcases hw with hw | hw <;> simp [Desc.wf, Desc.wfAlts] at hw; exact hw.2
-    simp only [Desc.nodup] at hn
+    simp only [Desc.vecNodup] at hn
     simp only [wt] at hv
     simp only [decD, encD, partialOf, erase]
     exact ih (Or.inl hw) hn v r hv
@@ -450,7 +473,7 @@ theorem decD_encD_aux (env : Env) (L : EnvLaws env) : ∀ d : Desc,
     intro hw hn v r hv
     have hw : a.wfAlts = true := by
       rcases hw with hw | hw <;> simp [Desc.wf, Desc.wfAlts] at hw; exact hw
-    simp only [Desc.nodup] at hn
+    simp only [Desc.vecNodup] at hn
     simp only [wt] at hv
     simp only [decD, encD, partialOf, erase]
     exact ih (Or.inr hw) hn v r hv
@@ -458,10 +481,10 @@ theorem decD_encD_aux (env : Env) (L : EnvLaws env) : ∀ d : Desc,
     intro hw hn v r hv
     have hw : d.wf = true ∧ rest.wfAlts = true := by
       rcases hw with hw | hw <;> simp [Desc.wf, Desc.wfAlts] at hw; exact ⟨hw.1.2, hw.2⟩
-    simp only [Desc.nodup, Bool.and_eq_true] at hn
+    simp only [Desc.vecNodup, Bool.and_eq_true] at hn
     cases v <;> simp [wt] at hv
     · simp only [decD, encD, partialOf, erase]
-      rw [ihd (Or.inl hw.1) hn.1.2 _ r hv]
+      rw [ihd (Or.inl hw.1) hn.1 _ r hv]
     · simp only [decD, encD, partialOf, erase]
       rw [ihr (Or.inr hw.2) hn.2 _ r hv]
   | void => intro _ _ v r hv; cases v <;> simp [wt] at hv
@@ -480,7 +503,7 @@ theorem dec_enc (env : Env) (L : EnvLaws env) (d : Desc) (hd : d.wf = true) (hn 
     decode env d (encode env d v ++ r) = .ok (erase env d v, r) := by
   simp only [decode, encode, List.append_assoc]
   rw [decS_encS env L d hd hn v _ hv]
-  exact decD_encD_aux env L d (Or.inl hd) hn v r hv
+  exact decD_encD_aux env L d (Or.inl hd) (nodup_vecNodup d hn) v r hv
 
 
 /-! ### what a successful decode consumed (arbitrary bytes) -/
@@ -696,7 +719,7 @@ theorem map_id_of_forall {l : List Val} {f : Val → Val} (h : ∀ a ∈ l, f a 
 theorem decD_sound_aux (env : Env) (L : EnvLaws env) : ∀ d : Desc,
     (d.wf = true ∨ d.wfAlts = true) → ∀ p bs v r, pwt env d p = true → decD env d p bs = .ok (v, r) →
       ∃ u, bs = u ++ r ∧ u.length = sizeD env d v ∧ sizeS env d v = sizeS env d p ∧
-        wt env d v = true ∧ erase env d v = v := by
+        wt env d v = true ∧ erase env d v = v ∧ partialOf env d v = p := by
   intro d
   induction d with
   | uint n =>
@@ -704,13 +727,13 @@ theorem decD_sound_aux (env : Env) (L : EnvLaws env) : ∀ d : Desc,
     cases p <;> simp [pwt] at hp
     simp only [decD, Except.ok.injEq, Prod.mk.injEq] at h
     obtain ⟨rfl, rfl⟩ := h
-    exact ⟨[], by simp, by simp [sizeD], rfl, by simp [wt, hp], by simp [erase]⟩
+    exact ⟨[], by simp, by simp [sizeD], rfl, by simp [wt, hp], by simp [erase], by simp [partialOf]⟩
   | bytesN n =>
     intro _ p bs v r hp h
     cases p <;> simp [pwt] at hp
     simp only [decD, Except.ok.injEq, Prod.mk.injEq] at h
     obtain ⟨rfl, rfl⟩ := h
-    exact ⟨[], by simp, by simp [sizeD], rfl, by simp [wt, hp], by simp [erase]⟩
+    exact ⟨[], by simp, by simp [sizeD], rfl, by simp [wt, hp], by simp [erase], by simp [partialOf]⟩
   | vecBytes =>
     intro _ p bs v r hp h
     cases p <;> simp [pwt] at hp
@@ -726,7 +749,7 @@ theorem decD_sound_aux (env : Env) (L : EnvLaws env) : ∀ d : Desc,
         obtain ⟨hx, hxl⟩ := read_sound h1
         obtain ⟨u, hu, hul⟩ := skip_sound h2
         exact ⟨x ++ u, by rw [hx, hu, List.append_assoc], by simp [sizeD, alignedSize, hxl, hul], by simp [sizeS],
-          by simp [wt, hxl, hp], by simp [erase]⟩
+          by simp [wt, hxl, hp], by simp [erase], by simp [partialOf, hxl]⟩
   | vec d ih =>
     intro hw p bs v r hp h
     have hw : d.wf = true := by
@@ -746,12 +769,12 @@ theorem decD_sound_aux (env : Env) (L : EnvLaws env) : ∀ d : Desc,
           · cases hfa
           · rename_i q r2 h2
             obtain ⟨u1, hu1, hl1, hq⟩ := decS_sound env L d hw h2
-            obtain ⟨u2, hu2, hl2, hs, hwt, her⟩ := ih (Or.inl hw) _ _ _ _ hq hfa
+            obtain ⟨u2, hu2, hl2, hs, hwt, her, _⟩ := ih (Or.inl hw) _ _ _ _ hq hfa
             exact ⟨u1 ++ u2, by rw [hu1, hu2, List.append_assoc], by simp [hl1, hl2, hs], hwt, her⟩) _ _ _ _ h1
       have h2 := dvd_sum_map l (fun e => sizeS env d e + sizeD env d e) (fun e he => by
         obtain ⟨a, b⟩ := size_aligned env L d hw e (hall e he).1
         exact Nat.dvd_add a b)
-      refine ⟨u, hu, ?_, by simp [sizeS], ?_, ?_⟩
+      refine ⟨u, hu, ?_, by simp [sizeS], ?_, ?_, by simp [partialOf, Val.elems_ofList, hn]⟩
       · simp only [sizeD, Val.elems_ofList]
         rw [alignedSize_of_dvd _ h2, hl]
       · simp only [wt, Val.elems_ofList, Val.isList_ofList, Bool.and_eq_true, List.all_eq_true, decide_eq_true_eq, true_and]
@@ -763,7 +786,7 @@ theorem decD_sound_aux (env : Env) (L : EnvLaws env) : ∀ d : Desc,
     cases p <;> simp [pwt] at hp
     simp only [decD, Except.ok.injEq, Prod.mk.injEq] at h
     obtain ⟨rfl, rfl⟩ := h
-    exact ⟨[], by simp, by simp [sizeD], rfl, by simp [wt], by simp [erase]⟩
+    exact ⟨[], by simp, by simp [sizeD], rfl, by simp [wt], by simp [erase], by simp [partialOf]⟩
   | pair a b iha ihb =>
     intro hw p bs v r hp h
     have hw : a.wf = true ∧ b.wf = true := by
@@ -778,26 +801,26 @@ theorem decD_sound_aux (env : Env) (L : EnvLaws env) : ∀ d : Desc,
       · rename_i vb r2 h2
         simp only [Except.ok.injEq, Prod.mk.injEq] at h
         obtain ⟨rfl, rfl⟩ := h
-        obtain ⟨u1, hu1, hl1, hs1, hw1, he1⟩ := iha (Or.inl hw.1) _ _ _ _ hp.1 h1
-        obtain ⟨u2, hu2, hl2, hs2, hw2, he2⟩ := ihb (Or.inl hw.2) _ _ _ _ hp.2 h2
+        obtain ⟨u1, hu1, hl1, hs1, hw1, he1, hp1⟩ := iha (Or.inl hw.1) _ _ _ _ hp.1 h1
+        obtain ⟨u2, hu2, hl2, hs2, hw2, he2, hp2⟩ := ihb (Or.inl hw.2) _ _ _ _ hp.2 h2
         exact ⟨u1 ++ u2, by rw [hu1, hu2, List.append_assoc], by simp [sizeD, hl1, hl2], by simp [sizeS, hs1, hs2],
-          by simp [wt, hw1, hw2], by simp [erase, he1, he2]⟩
+          by simp [wt, hw1, hw2], by simp [erase, he1, he2], by simp [partialOf, hp1, hp2]⟩
   | pre p' d ih =>
     intro hw p bs v r hp h
     have hw : d.wf = true := by
       rcases hw with hw | hw <;> simp [Desc.wf, Desc.wfAlts] at hw; exact hw.2
     simp only [pwt] at hp
     simp only [decD] at h
-    obtain ⟨u, hu, hl, hs, hwt, he⟩ := ih (Or.inl hw) _ _ _ _ hp h
-    exact ⟨u, hu, by simp [sizeD, hl], by simp [sizeS, hs], by simp [wt, hwt], by simp [erase, he]⟩
+    obtain ⟨u, hu, hl, hs, hwt, he, hpo⟩ := ih (Or.inl hw) _ _ _ _ hp h
+    exact ⟨u, hu, by simp [sizeD, hl], by simp [sizeS, hs], by simp [wt, hwt], by simp [erase, he], by simp [partialOf, hpo]⟩
   | enum a ih =>
     intro hw p bs v r hp h
     have hw : a.wfAlts = true := by
       rcases hw with hw | hw <;> simp [Desc.wf, Desc.wfAlts] at hw; exact hw
     simp only [pwt] at hp
     simp only [decD] at h
-    obtain ⟨u, hu, hl, hs, hwt, he⟩ := ih (Or.inr hw) _ _ _ _ hp h
-    exact ⟨u, hu, by simp [sizeD, hl], by simp [sizeS, hs], by simp [wt, hwt], by simp [erase, he]⟩
+    obtain ⟨u, hu, hl, hs, hwt, he, hpo⟩ := ih (Or.inr hw) _ _ _ _ hp h
+    exact ⟨u, hu, by simp [sizeD, hl], by simp [sizeS, hs], by simp [wt, hwt], by simp [erase, he], by simp [partialOf, hpo]⟩
   | alt k d rest ihd ihr =>
     intro hw p bs v r hp h
     have hw : d.wf = true ∧ rest.wfAlts = true := by
@@ -809,33 +832,35 @@ theorem decD_sound_aux (env : Env) (L : EnvLaws env) : ∀ d : Desc,
       · rename_i x r1 h1
         simp only [Except.ok.injEq, Prod.mk.injEq] at h
         obtain ⟨rfl, rfl⟩ := h
-        obtain ⟨u, hu, hl, hs, hwt, he⟩ := ihd (Or.inl hw.1) _ _ _ _ hp h1
-        exact ⟨u, hu, by simp [sizeD, hl], by simp [sizeS, hs], by simp [wt, hwt], by simp [erase, he]⟩
+        obtain ⟨u, hu, hl, hs, hwt, he, hpo⟩ := ihd (Or.inl hw.1) _ _ _ _ hp h1
+        exact ⟨u, hu, by simp [sizeD, hl], by simp [sizeS, hs], by simp [wt, hwt], by simp [erase, he], by simp [partialOf, hpo]⟩
     · simp only [decD] at h
       split at h
       · cases h
       · rename_i x r1 h1
         simp only [Except.ok.injEq, Prod.mk.injEq] at h
         obtain ⟨rfl, rfl⟩ := h
-        obtain ⟨u, hu, hl, hs, hwt, he⟩ := ihr (Or.inr hw.2) _ _ _ _ hp h1
-        exact ⟨u, hu, by simp [sizeD, hl], by simp [sizeS, hs], by simp [wt, hwt], by simp [erase, he]⟩
+        obtain ⟨u, hu, hl, hs, hwt, he, hpo⟩ := ihr (Or.inr hw.2) _ _ _ _ hp h1
+        exact ⟨u, hu, by simp [sizeD, hl], by simp [sizeS, hs], by simp [wt, hwt], by simp [erase, he], by simp [partialOf, hpo]⟩
   | void => intro _ p bs v r hp h; cases p <;> simp [pwt] at hp
   | skipped =>
     intro _ p bs v r hp h
+    cases p <;> simp [pwt] at hp
     simp only [decD, Except.ok.injEq, Prod.mk.injEq] at h
     obtain ⟨rfl, rfl⟩ := h
-    exact ⟨[], by simp, by simp [sizeD], by simp [sizeS], by simp [wt], by simp [erase]⟩
+    exact ⟨[], by simp, by simp [sizeD], by simp [sizeS], by simp [wt], by simp [erase], by simp [partialOf]⟩
   | empty d _ =>
     intro _ p bs v r hp h
+    cases p <;> simp [pwt] at hp
     simp only [decD, Except.ok.injEq, Prod.mk.injEq] at h
     obtain ⟨rfl, rfl⟩ := h
-    exact ⟨[], by simp, by simp [sizeD], by simp [sizeS], by simp [wt], by simp [erase]⟩
+    exact ⟨[], by simp, by simp [sizeD], by simp [sizeS], by simp [wt], by simp [erase], by simp [partialOf]⟩
   | custom k =>
     intro _ p bs v r hp h
     simp only [pwt] at hp
     simp only [decD] at h
-    obtain ⟨u, hu, hl, hs, hwt⟩ := (L k).decD_sound _ _ _ _ hp h
-    exact ⟨u, hu, by simp [sizeD, hl], by simp [sizeS, hs], by simp [wt, hwt], by simp [erase]⟩
+    obtain ⟨u, hu, hl, hs, hwt, hpo⟩ := (L k).decD_sound _ _ _ _ hp h
+    exact ⟨u, hu, by simp [sizeD, hl], by simp [sizeS, hs], by simp [wt, hwt], by simp [erase], by simp [partialOf, hpo]⟩
 
 /-- **arbitrary bytes**: a successful decode consumed exactly `size` of the value it returned, and that
 value is a well-typed value with its skipped fields at their defaults -/
@@ -847,7 +872,7 @@ theorem decode_sound (env : Env) (L : EnvLaws env) (d : Desc) (hd : d.wf = true)
   · cases h
   · rename_i p r1 h1
     obtain ⟨u1, hu1, hl1, hp⟩ := decS_sound env L d hd h1
-    obtain ⟨u2, hu2, hl2, hs, hwt, he⟩ := decD_sound_aux env L d (Or.inl hd) _ _ _ _ hp h
+    obtain ⟨u2, hu2, hl2, hs, hwt, he, _⟩ := decD_sound_aux env L d (Or.inl hd) _ _ _ _ hp h
     exact ⟨u1 ++ u2, by rw [hu1, hu2, List.append_assoc], by simp [size, hl1, hl2, hs], hwt, he⟩
 
 /-- **fixed point**: re-encoding a decoded value and decoding again gives the same value, consuming everything -/
@@ -867,5 +892,42 @@ theorem encode_injective (env : Env) (L : EnvLaws env) (d : Desc) (hd : d.wf = t
   rw [h, h2] at h1
   simp only [Except.ok.injEq, Prod.mk.injEq, and_true] at h1
   exact h1.symm
+
+
+/-! ### descriptors without skipped fields: the round trip returns the value itself -/
+
+def Desc.noSkip : Desc → Bool
+  | .vec d => d.noSkip
+  | .pair a b => a.noSkip && b.noSkip
+  | .pre _ d => d.noSkip
+  | .enum a => a.noSkip
+  | .alt _ d rest => d.noSkip && rest.noSkip
+  | .skipped => false
+  | _ => true
+
+theorem erase_noSkip (env : Env) : ∀ d : Desc, d.noSkip = true → ∀ v, wt env d v = true → erase env d v = v := by
+  intro d
+  induction d with
+  | vec d ih =>
+    intro hs v hv
+    simp only [Desc.noSkip] at hs
+    simp only [wt, Bool.and_eq_true, List.all_eq_true, decide_eq_true_eq] at hv
+    simp only [erase]
+    rw [map_id_of_forall (fun a ha => ih hs a (hv.1.2 a ha)), Val.ofList_elems v hv.1.1]
+  | pair a b iha ihb =>
+    intro hs v hv
+    simp only [Desc.noSkip, Bool.and_eq_true] at hs
+    cases v <;> simp [wt] at hv
+    simp [erase, iha hs.1 _ hv.1, ihb hs.2 _ hv.2]
+  | pre p d ih => intro hs v hv; simp only [Desc.noSkip] at hs; simp only [wt] at hv; simp [erase, ih hs v hv]
+  | enum a ih => intro hs v hv; simp only [Desc.noSkip] at hs; simp only [wt] at hv; simp [erase, ih hs v hv]
+  | alt k d rest ihd ihr =>
+    intro hs v hv
+    simp only [Desc.noSkip, Bool.and_eq_true] at hs
+    cases v <;> simp [wt] at hv
+    · simp [erase, ihd hs.1 _ hv]
+    · simp [erase, ihr hs.2 _ hv]
+  | skipped => intro hs; simp [Desc.noSkip] at hs
+  | _ => intro _ v _; simp [erase]
 
 end FuelVerif.Canonical
